@@ -4,7 +4,7 @@ import pk, src
 from common import jhash, first_diff
 from pkgrun import *
 
-PROF = profile(tokens=True, no_textbox_in_link=True, p_table=0.35, p_cell_block=0.5, p_sdt_block=0.12, p_textbox=0.08, p_style=0.5,
+PROF = profile(tokens=True, p_table=0.35, p_cell_block=0.5, p_sdt_block=0.12, p_textbox=0.08, p_style=0.5,
                p_grid_gap=0.0, p_sdt_cell=0.0, p_cell_nopar=0.0, max_depth=3, blocks=(1, 5))
 RULE = ('documents mixing free paragraphs and tables (tables nested in cells, text boxes and block content controls inside cells, tables '
         'in headers / footers / notes, tables first or last in the body, empty cells), both html settings; per paragraph record: lineage, '
@@ -17,7 +17,8 @@ def live(data, html):
     """lineage / style / element / predicates from live objects of the implementation"""
     from docx2python import docx2python
     from docx2python import iterators as it
-    from impl import par_json_factory, nest
+    from impl import par_json_factory, nest, _shim_deepcopy
+    _shim_deepcopy()
     out = {}
     with warnings.catch_warnings():
         warnings.simplefilter('ignore')
@@ -75,7 +76,7 @@ def one(ctx, data, meta=None, htmls=(False, True)):
                 if r['style'] != p.style:
                     ctx.fail('record style differs from the pStyle of its element', {**case, 'attribute': v}, {'record': r, 'expected': p.style}); good = False
                 toks = src.TOKEN.findall(''.join(x[1] for x in r['rs']))
-                if p.tokens and not p.in_link and [t for t in toks if t in set(p.tokens)] != p.tokens:
+                if p.tokens and not p.in_link and not p.same_text([t for t in toks if t in set(p.tokens)]):
                     ctx.fail("record text is not the text of the element it points at", {**case, 'attribute': v}, {'record': r, 'expected_tokens': p.tokens}); good = False
             # predicates: true exactly when the first paragraph comes from a source table
             pars = lv[v]['pars']
@@ -90,6 +91,7 @@ def one(ctx, data, meta=None, htmls=(False, True)):
                 if rec.get('elem') is not None and tuple(rec['elem']) in info: return info[tuple(rec['elem'])].in_tbl
                 if rec.get('copy', False):
                     if rec['lin'][1:2] == ['']: return None        # synthetic padding paragraph of a merged cell: no source paragraph to ask
+                    if rec.get('anon'): return None                 # copy of an anonymous paragraph (inline content outside every w:p): no source paragraph either
                     return True     # copies exist only inside tables
                 return None                         # anonymous paragraph (e.g. a block-level equation): no source paragraph to ask
             for ti, t in enumerate(pars):
